@@ -120,10 +120,10 @@ func c09(c *Ctx) {
 		c.fail("C09/runner", fmt.Sprintf("the proxy did not complete the script: %v (%d of %d)", err, len(log), len(ops)), map[string]any{"ops": len(ops)})
 		return
 	}
+	c.tieProxy([][]POp{ops}, [][][]PEvent{log})
 	for i, info := range infos {
 		evs := log[i+2]
 		c.Rep.OracleCases++
-		c.Rep.TieCases++
 		c.dist("method." + info.method)
 		c.distinct(fmt.Sprintf("%s/%d/%d/%d", info.method, info.line, info.col, info.ans))
 		var downs []PEvent
